@@ -40,6 +40,17 @@ class GtPred(Predicate):
         return self.obj.a > self.bound
 
 
+@dataclass(eq=False)
+class GtPred2(Predicate):
+    """harness predicate over two variables: left.a > right.a"""
+
+    left: Any
+    right: Any
+
+    def __call__(self):
+        return self.left.a > self.right.a
+
+
 # ---------------------------------------------------------------------------------------------
 # shape utilities
 # ---------------------------------------------------------------------------------------------
@@ -59,7 +70,7 @@ def shape_vars(c, bound=()):
             term(c[2]); term(c[3])
         elif k in ("in", "truthy"):
             term(c[1])
-        elif k in ("has",):
+        elif k in ("has", "pred2"):
             if c[1] not in out and c[1] not in bound_stack:
                 out.append(c[1])
             if c[2] not in out and c[2] not in bound_stack:
@@ -96,7 +107,7 @@ def all_vars(c):
         elif k in ("in", "truthy"):
             if c[1][0] != "lit":
                 add(c[1][1])
-        elif k == "has":
+        elif k in ("has", "pred2"):
             add(c[1]); add(c[2])
         elif k in ("isa", "pred", "the"):
             add(c[1])
@@ -131,7 +142,7 @@ def features(c):
             f.add("kids")
         elif k == "isa":
             f.add("p2")
-        elif k == "pred":
+        elif k in ("pred", "pred2"):
             f.add("pred")
         elif k in ("and", "or"):
             walk(c[1]); walk(c[2])
@@ -188,6 +199,8 @@ def show(c):
         return "HasType(%s,P2)" % c[1]
     if k == "pred":
         return "Gt(%s,k%d)" % (c[1], c[2])
+    if k == "pred2":
+        return "Gt2(%s,%s)" % (c[1], c[2])
     if k == "the":
         return "%s.a==the(z:z.a==k%d).a" % (c[1], c[2])
     if k in ("and", "or"):
@@ -339,6 +352,8 @@ class World:
             return HasType(self.var(c[1]), P2)
         if k == "pred":
             return GtPred(self.var(c[1]), self.lits[c[2]])
+        if k == "pred2":
+            return GtPred2(self.var(c[1]), self.var(c[2]))
         if k == "the":
             t = let(type(self.dom["t"][0]) if self.dom["t"] else P, self.dom["t"], name="t")
             return self.var(c[1]).a == the(entity(t, t.a == self.lits[c[2]])).a
@@ -407,6 +422,8 @@ class World:
             return isinstance(env[c[1]], P2)
         if k == "pred":
             return env[c[1]].a > self.lits[c[2]]
+        if k == "pred2":
+            return env[c[1]].a > env[c[2]].a
         if k == "the":
             # defined only when exactly one t satisfies t.a == k (otherwise the() raises; see the_defined)
             return OR([AND(EQ(t.a, self.lits[c[2]]), EQ(env[c[1]].a, t.a)) for t in self.dom["t"]])
@@ -452,10 +469,10 @@ def is_elseif_fragment(c):
     k = c[0]
     if "flatv" in features(c):
         return False  # a flattened collection multiplies results per element: judged by C01 (set reading) only
-    if k in ("cmp", "in", "has", "isa", "pred"):
+    if k in ("cmp", "in", "has", "isa", "pred", "pred2"):
         return True
     if k == "not":
-        return c[1][0] in ("cmp", "in", "has", "isa", "pred")
+        return c[1][0] in ("cmp", "in", "has", "isa", "pred", "pred2")
     if k == "and":
         return is_elseif_fragment(c[1]) and is_elseif_fragment(c[2])
     if k == "or":
@@ -486,6 +503,8 @@ def atoms(vars_, level):
             out += [("cmp", "<", ("t", x), ("t", y))]
     if y:
         out += [("cmp", "==", ("a", x), ("a", y)), ("cmp", "<", ("a", x), ("a", y))]
+        if level >= 2:
+            out += [("pred2", x, y)]
         if level >= 2:
             out += [("cmp", ">=", ("b", x), ("a", y)), ("cmp", "!=", ("a", y), ("a", x))]
     return out
